@@ -6,6 +6,8 @@ package mavlh
 
 import (
 	"bytes"
+	"crypto/sha256"
+	"encoding/binary"
 	"encoding/hex"
 	"fmt"
 	"os"
@@ -14,7 +16,9 @@ import (
 	"strconv"
 	"strings"
 
+	dbm "github.com/33cn/chain33/common/db"
 	clog "github.com/33cn/chain33/common/log"
+	"github.com/33cn/chain33/queue"
 	"github.com/33cn/chain33/system/store/mavl"
 	mavldb "github.com/33cn/chain33/system/store/mavl/db"
 	"github.com/33cn/chain33/types"
@@ -61,6 +65,14 @@ type Eng struct {
 	cfg   Cfg
 	store *mavl.Store
 	tcfg  *mavldb.TreeConfig
+	q     queue.Queue
+	// PruneHeight is the configured prune interval (0: the default 100000000, i.e. pruning never triggers)
+	PruneHeight int32
+	// PruneMode: replay files are for the pruning engine ("new <pruneHeight>")
+	PruneMode bool
+	// JoinPrune: after Set / Commit wait for the background pruning goroutine (verif hook), so that a pruning run
+	// triggered by Tree.Save completes before the next operation
+	JoinPrune bool
 }
 
 // NewEng creates the engine; scratch databases live under $VERIF_TMP.
@@ -87,18 +99,40 @@ func (e *Eng) closeStore() {
 		e.store.Close()
 		e.store = nil
 	}
+	if e.q != nil {
+		e.q.Close()
+		e.q = nil
+	}
 }
 
+// AttachQueue connects the current store to a fresh message queue (BaseStore.SetQueueClient): requests sent to topic
+// "store" are then handled by BaseStore.processMessage, one goroutine per request.
+func (e *Eng) AttachQueue() queue.Client {
+	e.q = queue.New("channel")
+	e.store.SetQueueClient(e.q.Client())
+	return e.q.Client()
+}
+
+// DB exposes the store's database (pruning entry points take it).
+func (e *Eng) DB() dbm.DB { return e.store.GetDB() }
+
+// TreeCfg is the tree configuration equal to the store's.
+func (e *Eng) TreeCfg() *mavldb.TreeConfig { return e.tcfg }
+
 func (e *Eng) open() {
+	ph := e.PruneHeight
+	if ph == 0 {
+		ph = 100000000
+	}
 	sub := fmt.Sprintf(`{"enableMavlPrefix":%v,"enableMVCC":%v,"enableMavlPrune":%v,"pruneHeight":%d,"enableMemTree":%v,"enableMemVal":%v,"tkCloseCacheLen":100}`,
-		e.cfg.Prefix, e.cfg.MVCC, e.cfg.Prune, 100000000, e.cfg.MemTree, e.cfg.MemVal)
+		e.cfg.Prefix, e.cfg.MVCC, e.cfg.Prune, ph, e.cfg.MemTree, e.cfg.MemVal)
 	m := mavl.New(&types.Store{Name: "mavl", Driver: "leveldb", DbPath: e.dir, DbCache: 8}, []byte(sub), nil)
 	e.store = m.(*mavl.Store)
 	e.tcfg = &mavldb.TreeConfig{
 		EnableMavlPrefix: e.cfg.Prefix || e.cfg.Prune,
 		EnableMVCC:       e.cfg.MVCC,
 		EnableMavlPrune:  e.cfg.Prune,
-		PruneHeight:      100000000,
+		PruneHeight:      ph,
 		EnableMemTree:    e.cfg.MemTree,
 		EnableMemVal:     e.cfg.MemVal,
 		TkCloseCacheLen:  100,
@@ -191,6 +225,78 @@ func (e *Eng) Reopen() {
 	e.Out.Op("reopen", "ok")
 }
 
+// NewPrune starts a fresh pruning store (EnableMavlPrune, hence prefix) with prune interval ph, as a fresh process
+// (package globals of the pruning machinery reset through the verif hook).
+func (e *Eng) NewPrune(ph int32) {
+	e.closeStore()
+	if e.dir != "" {
+		_ = os.RemoveAll(e.dir)
+	}
+	e.n++
+	e.dir = filepath.Join(e.base, strconv.Itoa(e.n))
+	e.cfg = Cfg{Prefix: true, Prune: true}
+	e.PruneHeight = ph
+	e.JoinPrune = true
+	mavldb.VerifResetGlobals()
+	e.open()
+	e.Out.Op(fmt.Sprintf("new %d", ph), "ok")
+}
+
+// Restart is a process restart on the same database: store closed, pruning globals and caches reset, reopened.
+func (e *Eng) Restart() {
+	e.closeStore()
+	mavldb.VerifResetGlobals()
+	e.open()
+	e.Out.Op("restart", "ok")
+}
+
+// Prune is PruningTree(db, height) (first and second level), synchronously.
+func (e *Eng) Prune(height int64) string {
+	st := gen.Guard(func() string {
+		mavldb.PruningTree(e.store.GetDB(), height, e.tcfg)
+		return "ok"
+	})
+	e.Out.Op(fmt.Sprintf("prune %d", height), st)
+	return st
+}
+
+// Dump is a digest of every record of the database: "<count> <sha256 of the length-prefixed sorted records>".
+func (e *Eng) Dump() string {
+	st := gen.Guard(func() string {
+		it := e.store.GetDB().Iterator(nil, nil, false)
+		defer it.Close()
+		h := sha256.New()
+		n := 0
+		var lb [10]byte
+		for it.Rewind(); it.Valid(); it.Next() {
+			k, v := it.Key(), it.Value()
+			h.Write(lb[:binary.PutUvarint(lb[:], uint64(len(k)))])
+			h.Write(k)
+			h.Write(lb[:binary.PutUvarint(lb[:], uint64(len(v)))])
+			h.Write(v)
+			n++
+		}
+		return fmt.Sprintf("%d %x", n, h.Sum(nil))
+	})
+	e.Out.Op("dump", st)
+	return st
+}
+
+// DumpAll lists every record (diagnostic op).
+func (e *Eng) DumpAll() string {
+	st := gen.Guard(func() string {
+		it := e.store.GetDB().Iterator(nil, nil, false)
+		defer it.Close()
+		var kvs []KV
+		for it.Rewind(); it.Valid(); it.Next() {
+			kvs = append(kvs, KV{append([]byte{}, it.Key()...), append([]byte{}, it.Value()...)})
+		}
+		return ShowKVs(kvs)
+	})
+	e.Out.Op("dumpall", st)
+	return st
+}
+
 // ColdReopen closes the store, empties the process-global memTree / tkCloseCache and reopens the same database:
 // what a process restart does.
 func (e *Eng) ColdReopen() {
@@ -225,6 +331,9 @@ func (e *Eng) Set(parent []byte, height int64, kvs []KV) (root []byte, status st
 		root = h
 		return rootResult(h, err)
 	})
+	if e.JoinPrune {
+		mavldb.VerifWaitPrune()
+	}
 	e.Out.Op(fmt.Sprintf("set %s %d %s", Hx(parent), height, ShowKVs(kvs)), status)
 	return root, status
 }
@@ -255,6 +364,9 @@ func reqResult(hash []byte, err error) string {
 // Commit is Store.Commit.
 func (e *Eng) Commit(root []byte) string {
 	st := gen.Guard(func() string { return reqResult(e.store.Commit(&types.ReqHash{Hash: root})) })
+	if e.JoinPrune {
+		mavldb.VerifWaitPrune()
+	}
 	e.Out.Op("commit "+Hx(root), st)
 	return st
 }
@@ -505,7 +617,11 @@ func (e *Eng) replayLine(f []string) bool {
 		return false
 	}
 	if e.store == nil && f[0] != "new" {
-		e.New(Cfg{})
+		if e.PruneMode {
+			e.NewPrune(0)
+		} else {
+			e.New(Cfg{})
+		}
 	}
 	ok := true
 	need := func(n int) bool { return len(f) == n }
@@ -516,7 +632,16 @@ func (e *Eng) replayLine(f []string) bool {
 		}
 		c, good := CfgFromBits(f[1])
 		if !good {
+			if ph, err := strconv.ParseInt(f[1], 10, 32); err == nil && ph >= 0 && e.PruneMode {
+				e.NewPrune(int32(ph))
+				return true
+			}
 			return false
+		}
+		if e.PruneMode {
+			ph, _ := strconv.ParseInt(f[1], 10, 32)
+			e.NewPrune(int32(ph))
+			return true
 		}
 		e.New(c)
 	case "reopen":
@@ -524,6 +649,30 @@ func (e *Eng) replayLine(f []string) bool {
 			return false
 		}
 		e.Reopen()
+	case "restart":
+		if !need(1) {
+			return false
+		}
+		e.Restart()
+	case "dump":
+		if !need(1) {
+			return false
+		}
+		e.Dump()
+	case "dumpall":
+		if !need(1) {
+			return false
+		}
+		e.DumpAll()
+	case "prune":
+		if !need(2) {
+			return false
+		}
+		h, err := strconv.ParseInt(f[1], 10, 64)
+		if err != nil || h < 0 {
+			return false
+		}
+		e.Prune(h)
 	case "set", "mset":
 		if !need(4) {
 			return false
